@@ -1018,8 +1018,49 @@ func (fc *FnCtx) selectInstr(x *ssa.Select) {
 			g.set(fc.cur, "G|"+gname, fmt.Sprintf("(ite (= %s %d) (store %s %s (+ (select %s %s) 1)) %s)", idx, k, cur.t, owner, cur.t, owner, cur.t))
 		}
 	}
+	// ghost events of send arms: the value is appended to the channel's ghost sequence exactly when that arm is taken
+	for k, st := range x.States {
+		if st.Dir != types.SendOnly {
+			continue
+		}
+		gname, ok := fc.chanGhostOf(st.Chan)
+		if !ok {
+			continue
+		}
+		env := fc.envAt(fc.cur, nil)
+		before := env.ghostVal(g.cs.Ghosts[gname]).t
+		fc.chanEvent(st.Chan, fc.term(st.Send), x)
+		after := g.get(fc.cur, "G|"+gname)
+		g.set(fc.cur, "G|"+gname, fmt.Sprintf("(ite (= %s %d) %s %s)", idx, k, after, before))
+	}
 	g.note("select: arbitrary ready case, received values arbitrary")
 	fc.syncPoint("select")
+}
+
+// chanGhostOf: the ghost sequence declared (changhost) for the struct field the channel operand was loaded from.
+func (fc *FnCtx) chanGhostOf(ch ssa.Value) (string, bool) {
+	ld, ok := ch.(*ssa.UnOp)
+	if !ok {
+		return "", false
+	}
+	fa, ok := ld.X.(*ssa.FieldAddr)
+	if !ok {
+		return "", false
+	}
+	T := fa.X.Type().Underlying().(*types.Pointer).Elem()
+	n, ok := T.(*types.Named)
+	if !ok || n.Obj().Pkg() == nil {
+		return "", false
+	}
+	st := T.Underlying().(*types.Struct)
+	gname, ok := fc.g.cs.ChanGhosts[n.Obj().Pkg().Path()+"::"+n.Obj().Name()+"."+st.Field(fa.Field).Name()]
+	if !ok {
+		return "", false
+	}
+	if _, ok := fc.g.cs.Ghosts[gname]; !ok {
+		cxFail("changhost: unknown ghost variable %s", gname)
+	}
+	return gname, true
 }
 
 // chanEvent: a send on a channel that was loaded from a field declared `changhost` appends the
